@@ -75,6 +75,12 @@ CLAIMED = {
         "the stored _parent links are observed through the API, not modelled as state",
         "DESIGN.md §6 C10",
     ),
+    "C11": (
+        "Lean 4 theorems about the model of diff_tree, for every iteration order of the added set + projection/mark oracles on the real diff",
+        "diffTree mirrors compare/_copy_children/the re-classification loop/reduce; theorems: identical inputs give no marks, both projections, marks exactly on one-sided children, moved pairs, true order indices, reduce = marked nodes and ancestors, for all orders of the added set. Tie: all pairs of small labelled forests and random mutated pairs x (ordered, reduce); property oracles on the implementation's result and comparison with the model modulo the nondeterministic choice of the moved-here clone.",
+        "IdFaithful labels (== iff same data_id)",
+        "DESIGN.md §6 C11",
+    ),
     "C12": (
         "Lean 4 theorems (layout of the written node list; loader = independent decoder) + layout oracle on real documents + independent encoder for the reading side",
         "Theorems: entries are in pre-order, entry i names its parent's 1-based index (< i, 0 for tops), a repeated occurrence with equal kind is exactly a reference to the first occurrence, header constants come from the regenerated table, documents without the nutree header are refused. Tie: a layout checker written from the documentation runs on every saved document; documents produced by an independent encoder, the user guide's literal example and malformed headers are loaded by the real code and by the model.",
